@@ -59,7 +59,7 @@ PAIRS = [('T0', 'a'), ('T0', 'b'), ('T1', 'a'), ('T1', 'b')]
 
 def _subs(tier):
     r = 3
-    quick_set = {(0, 0, 1), (0, 1, 0), (0, 2, 0), (0, 2, 1), (0, 1, 2), (0, 2, 2)}
+    quick_set = {(0, 0, 1), (0, 1, 0), (0, 2, 0), (0, 2, 2), (0, 0, 2)}   # assignments with three distinct (target, tag) pairs: thorough only
     out = []
     for assign in itertools.product(range(4), repeat=r):
         # symmetry: first request is (T0, a); second is one of (T0,a) (T0,b) (T1,a)
@@ -74,7 +74,7 @@ def _subs(tier):
         for i in range(1, r):        # the first request is issued at time 0 (nothing can happen before it)
             params.append([f'd{i}', 0, T])
         variants = [False]
-        if assign[:2] == (0, 2) and (tier != 'quick' or assign == (0, 2, 1)):
+        if assign[:2] == (0, 2) and (tier != 'quick' or assign == (0, 2, 0)):
             variants.append(True)
         if assign in ((0, 2, 0), (0, 1, 0)):
             variants.append('end')          # the last request repeats the first order from inside that order's end_work hook
@@ -94,7 +94,7 @@ def jobs(tier):
 
 def bounds_text(tier):
     r = 3
-    return (f'{r} requests over targets T0, T1 and tags a, b (' + ('six assignments' if tier == 'quick' else 'every assignment up to symmetry') + f'), issued at symbolic instants '
+    return (f'{r} requests over targets T0, T1 and tags a, b (' + ('five assignments' if tier == 'quick' else 'every assignment up to symmetry') + f'), issued at symbolic instants '
             f't0 <= t1 <= ... (equal instants allowed); maintainer capacity, per-(target, tag) duration, needed capacity '
             f'(0 and more than the total included) and cost symbolic ints in [0, 10**6]; one variant issues a request from '
             f'inside a start_work hook; every tie-break order')
